@@ -182,38 +182,40 @@ Definition dash_name (s : pystr) : pystr := map (fun c => if c =? USC then DASH 
 Definition is_safe_char (c : N) : bool := negb ((c =? DQ) || (c =? SEMI) || (c =? COLON) || (c =? COMMA)).
 Definition is_qsafe_char (c : N) : bool := negb (c =? DQ).
 
-(* one parameter value at the head of s: quoted or a (possibly empty) run of safe characters *)
-Definition parse_pvalue (s : pystr) : option (pystr * pystr) :=
+(* one parameter value at the head of s: quoted (true, text) or a possibly empty run of safe characters (false, text) *)
+Definition parse_pvalue (s : pystr) : option (bool * pystr * pystr) :=
   match s with
   | c :: r => if c =? DQ then
                 let '(v, r') := span is_qsafe_char r in
-                match r' with _ :: r'' => Some (v, r'') | [] => None end
-              else Some (span is_safe_char s)
-  | [] => Some ([], [])
+                match r' with _ :: r'' => Some (true, v, r'') | [] => None end
+              else let '(v, r') := span is_safe_char s in Some (false, v, r')
+  | [] => Some (false, [], [])
   end.
 
-(* the values after '=': v1 *("," v)  -- fuel = length of the input *)
+(* the values after '=': v1 *("," v)  -- fuel = length of the input.
+   `param_values_re.findall` never yields an empty UNQUOTED value: those vanish; a quoted "" stays. *)
 Fixpoint parse_pvalues (fuel : nat) (s : pystr) : option (list pystr * pystr) :=
   match fuel with
   | O => None
   | S f =>
       match parse_pvalue s with
       | None => None
-      | Some (v, r) =>
+      | Some (q, v, r) =>
+          let keep := fun vs => if q || nonempty v then v :: vs else vs in
           match r with
           | c :: r' => if c =? COMMA then
                          match parse_pvalues f r' with
-                         | Some (vs, r'') => Some (v :: vs, r'')
+                         | Some (vs, r'') => Some (keep vs, r'')
                          | None => None
                          end
-                       else Some ([v], r)
-          | [] => Some ([v], r)
+                       else Some (keep [], r)
+          | [] => Some (keep [], r)
           end
       end
   end.
 
-(* `param_values_re.findall` never yields an empty UNQUOTED value; a parameter left without values is a
-   vCard-2.1 "singleton" which vobject keeps aside and never serialises: it disappears. *)
+(* a parameter left without values is a vCard-2.1 "singleton" which vobject keeps aside and never serialises:
+   it disappears. *)
 Definition raw_param := (pystr * list pystr)%type.
 
 Fixpoint parse_params (fuel : nat) (s : pystr) : option (list raw_param * pystr) :=
@@ -273,6 +275,8 @@ Definition parse_cl (s : pystr) : option cl :=
                  else (None, n1, r1)
     | [] => (None, n1, r1)
     end in
+  (* line_re: `;?` before the parameters tolerates one extra semicolon *)
+  let r := match r with c :: (d :: _) as r' => if (c =? SEMI) && (d =? SEMI) then r' else r | _ => r end in
   match parse_params (S (List.length r)) r with
   | Some (raw, v) =>
       let ps := merge_params raw in
